@@ -524,4 +524,4 @@ pub fn run(rep: &Report) {
     rep.floor("function-plane evaluations", rep.evals(), 2_000_000);
 }
 
-pub const RULE: &str = "function plane: every pub byte_/word_ add/adc/sub/sbb/cmp/inc/dec/neg helper called directly (bytes exhaustively over all operand pairs x carry-in x flag bases, words on a 16-bit boundary lattice squared, unary words over all 65536 values, thorough: all 2^32 word pairs x cin); instruction plane: every one of the 16+6 operand forms through Interpreter::parse from hostile register/segment states with whole-memory diff; source plane: the same forms through the real Preprocessor. A case is distinct/non-trivial by (function or operand-form class, status flags in, status flags out) resp. (instruction class, accept-set member).";
+pub const RULE: &str = "function plane: every pub byte_/word_ add/adc/sub/sbb/cmp/inc/dec/neg helper called directly (bytes exhaustively over all operand pairs x carry-in x flag bases, words on a 16-bit boundary lattice squared, unary words over all 65536 values, thorough: all 2^32 word pairs x cin); instruction plane: every one of the 16+6 operand forms through Interpreter::parse from hostile register/segment states with whole-memory diff; source plane: the same forms through the real Preprocessor. A case is distinct/non-trivial by (function or operand-form class, status flags in, status flags out) resp. (instruction class, accept-set member). History planes: lock-step histories of the whole ADD..NEG family next to MUL/DIV (register and memory forms), flag setters and loads, and mixed-family histories drawn from all 13 instruction classes (divergences reported at this family's instructions; status flags of INC/DEC/NEG are left to the function plane with its recorded findings); every operand form also with the operand aimed at the last bytes of memory.";
